@@ -7,19 +7,23 @@ func init() {
 		BPF: []BPFUnit{
 			{"qos_ratelimit.c", "qos_egress_prog"}, {"qos_ratelimit.c", "qos_ingress_prog"},
 		},
-		// tb_contract: per-call contract of token_bucket_check at each inlined call
-		// (/verif/spec/bpf/token_bucket.vspec); tb_two_packets: two consecutive calls on the
-		// same bucket (/verif/spec/bpf/token_bucket_two_packets.vspec)
-		BPFKinds: "tb_contract,tb_two_packets",
+		// tb_contract: the compiled call implements the specified token-bucket step, one
+		// contract per case (/verif/spec/bpf/token_bucket.vspec); tb_math: lemmas over
+		// mathematical integers about that step, including "no intermediate product or sum
+		// exceeds 64 bits" for every operation of the specification (generated, exact#k);
+		// tb_two_packets(+_math): two consecutive calls on the same bucket
+		// (/verif/spec/bpf/token_bucket_two_packets.vspec)
+		BPFKinds: "tb_contract,tb_math,tb_two_packets,tb_two_packets_math",
 		Undecided: []string{
-			"arithmetic lemmas of kind tb_arith_lemma (token_bucket_lemmas.vspec: the refill is exact for byte-multiple rates while nothing wraps; never above the exact value): 128-bit multiply/divide proofs that the solvers do not finish in the budget; not part of the claim",
+			"window statements ('admitted bytes in any window W <= burst + rate*W', 'a backlogged subscriber gets >= rate*W - burst - one maximum packet'): they follow from the per-call lemmas by summing over the calls in the window (consumed intervals [last_update, last_update') are disjoint and lie inside the window; credited*1e9 <= consumed*rate; unconsumed time earns < 1 token; consumed time over-pays < 1 ns of rate per refill unless the bucket is full); the summation itself is an argument on paper, not an obligation",
 			"two CPUs updating one bucket concurrently (the bucket is read-modify-written without atomics); the control-plane writer of struct token_bucket (pkg/qos) is not part of this BPF unit list",
-			"clock going backwards relative to last_update (the arithmetic contracts assume now >= last_update; the behavioural contracts hold for the wrapped difference as the code computes it)",
+			"clock going backwards relative to last_update (scope assumes now >= last_update; the code then treats the wrapped difference as a long idle period and refills the bucket)",
+			"rates of 1..7 bit/s earn no whole byte per second and are never refilled (documented behaviour of the repaired code: contract sub_byte_rate_never_refills)",
 		},
 		Assumptions: []string{
 			"bucket invariant tokens <= burst_bytes at call entry (shown to be preserved by every call)",
 			"bpf_ktime_get_ns returns an arbitrary 64-bit value; two-packet model: the second call runs on the bucket bytes the first call left, nothing else writes the bucket in between, 1 Mbit/s..10 Gbit/s in whole bytes/s, 64..1514-byte packets, burst >= 1514, at most 1 s between last_update and the second packet",
 		},
-		Explanation: "token_bucket_check is inlined into both TC programs; at each inlined call the contract relates the 32 bucket bytes before and after the call, the packet length, the clock value read inside the call and the return value, all as 64-bit bit-vectors: rate 0 leaves the bucket untouched and admits; otherwise tokens' <= burst, the packet is admitted iff min(burst, tokens + refill) >= len and then exactly len tokens are taken (no wrap), a rejected packet leaves tokens' = min(burst, tokens + refill) < len, last_update' = now, and the configuration bytes are unchanged, where refill is the value the code computes. Against the mathematical value floor(elapsed_ns * rate_bps / 8 / 1e9), computed in 128 bits, two obligations state that the 64-bit product elapsed * (rate/8) does not wrap within one day at up to 100 Gbit/s and that the refill is exact. The two-packet obligation executes the callee a second time on the state the first call left and states that time for which no token was credited at the first packet (refill 0) is not lost: if the mathematical bucket holds enough for the second packet, the code admits it. Counterexamples are replayed by calling the real token_bucket_check natively on the model's bucket bytes and clock values.",
+		Explanation: "token_bucket_check is inlined into both TC programs; at each inlined call the specification (token_bucket.vspec) defines the token-bucket step as a function of the 32 bucket bytes before the call, the clock value read inside the call and the packet length: R = rate_bps/8; an idle time longer than burst*1e9/R fills the bucket and sets last_update = now; otherwise floor(elapsed*R/1e9) tokens are credited (capped at burst) and last_update advances by ceil(tokens*1e9/R), nothing happens when no whole token was earned; the packet is admitted iff tokens >= len. Bit-vector obligations on the compiled code (tb_contract): the call leaves exactly that state and verdict in each case (rate 0 untouched, sub-byte rates, idle refill, no whole token, credit), tokens' <= burst, configuration bytes unchanged. Lemmas over mathematical integers about the step (tb_math), generated from the same definitions: every +,*,-,div of the specification stays within 64 bits (so the bit-vector and the integer readings agree), tokens <= burst is preserved, last_update <= last_update' <= now, credited tokens * 1e9 <= consumed time * R (upper bound of the property), unconsumed time earns less than one token and consumed time over-pays less than one nanosecond of rate unless the bucket is full (lower bound / no starvation), and the two-packet instance. tb_two_packets executes the callee a second time on the state the first call left: if the first call credited nothing, no time was consumed and the second packet is admitted whenever everything earned since the last credited instant covers it. Failing bit-vector contracts are replayed by calling the real token_bucket_check natively on the model's bucket bytes and clock values.",
 	})
 }
